@@ -2,9 +2,9 @@
 from lib import vf, e3
 from checks import scen
 
-E2FN = ['h_lock', 'h_rlock', 'h_trylock', 'h_rtrylock', 'h_unlock', 'h_runlock', 'h_unlock_nowake', 'h_mu_wait', 'h_cv_wait']
+E2FN = ['h_lock', 'h_rlock', 'h_trylock', 'h_rtrylock', 'h_unlock', 'h_runlock', 'h_unlock_nowake', 'h_mu_wait', 'h_cv_wait', 'h_cv_signal']
 QUICK = ['e2_%s_U2_R1' % f for f in E2FN]
-THOROUGH = QUICK + ['e2_%s_U3_R1' % f for f in E2FN]
+THOROUGH = QUICK + ['e2_%s_U3_R1' % f for f in E2FN if f not in ('h_mu_wait', 'h_cv_wait')]
 
 
 def scenarios(ctx):
